@@ -115,6 +115,8 @@ func (e *SpecEnv) resolveType(t *SType) types.Type {
 		switch t.Name {
 		case "bv64", "bv8", "bv32", "bv1", "intarray":
 			return pseudoType(t.Name)
+		case "struct{}":
+			return types.NewStruct(nil, nil)
 		}
 		if r, ok := e.te[t.Name]; ok {
 			return r
@@ -324,6 +326,22 @@ func (e *SpecEnv) ident(x *SExpr) *Val {
 			return e.result
 		}
 	}
+	if e.fr != nil && e.fr.loops != nil {
+		// <comment><k>: the header phi with that comment of loop k (e.g. rangeindex0 = hidden index of loop 0)
+		for hi, h := range e.fr.loops.headers {
+			for _, in := range h.Instrs {
+				phi, ok := in.(*ssa.Phi)
+				if !ok {
+					break
+				}
+				if fmt.Sprintf("%s%d", phi.Comment, hi) == name {
+					if v, ok := e.fr.regs[phi]; ok {
+						return v
+					}
+				}
+			}
+		}
+	}
 	if e.fr != nil {
 		fr := e.fr
 		// captured variables of a closure: the name denotes the variable's current content
@@ -397,6 +415,33 @@ func (e *SpecEnv) objVal(o types.Object) *Val {
 func (e *SpecEnv) localByName(name string) *Val {
 	fr := e.fr
 	var best *ssa.Alloc
+	// <name><k>: the variable called name that loop k assigns (e.g. rangeindex1: hidden index of loop 1)
+	if fr.loops != nil {
+		for hi, h := range fr.loops.headers {
+			for _, m := range fr.loops.modCells[h] {
+				if fmt.Sprintf("%s%d", m.Comment, hi) == name {
+					if _, executed := fr.regs[m]; executed {
+						// innermost loop that assigns it wins only if the names coincide exactly; keep the first match per ordinal
+						inner := false
+						for hj, h2 := range fr.loops.headers {
+							if hj != hi && fr.loops.body[h][h2] {
+								for _, m2 := range fr.loops.modCells[h2] {
+									if m2 == m {
+										inner = true // assigned by a nested loop: it is that loop's variable
+									}
+								}
+							}
+						}
+						if !inner {
+							p := fr.regs[m]
+							a := e.run.addrOf(p, e.te)
+							return e.run.load(e.st, a, derefType(m.Type()), e.te)
+						}
+					}
+				}
+			}
+		}
+	}
 	for _, b := range fr.fn.Blocks {
 		for _, in := range b.Instrs {
 			a, ok := in.(*ssa.Alloc)
